@@ -187,6 +187,10 @@ class Tr:
         if isinstance(node, ast.BinOp):
             if isinstance(node.op, ast.Pow):
                 return self.power(node, env, want)
+            if isinstance(node.op, (ast.BitAnd, ast.BitOr)):
+                (a, ta), (b, tb) = self.expr(node.left, env, 'B'), self.expr(node.right, env, 'B')
+                if ta != 'B' or tb != 'B': fail(node, f'& / | on non-booleans ({ta},{tb})')
+                return f'({"andb" if isinstance(node.op, ast.BitAnd) else "orb"} {a} {b})', 'B'
             lt, rt = self.pair(node.left, node.right, env, want)
             (a, ta), (b, tb) = lt, rt
             if ta != tb or ta not in NUM: fail(node, f'operands of types {ta},{tb}')
